@@ -335,9 +335,75 @@ let run_pcopy t =
   let sp = String.concat " " (sp_evs @ [";"; (if iv && moved then "0" else seqs 1 n); (if third then seqs 101 m else seqs 1 n)]) in
   (model, sp)
 
+(* pown: the same for the alternatives of a variant / optional / expected *)
+let run_pown t =
+  silent_assign := false;
+  let kind = next_str t in
+  let i0 = next_int t in
+  let i1 = next_int t in
+  let what = next_str t in
+  let tracked i = match kind with "var" -> i = 0 || i = 2 | "opt" -> i = 1 | _ -> true in
+  let trk = trk_of (List.map nat_of_int (match kind with "var" -> [0; 2] | "opt" -> [1] | "exp" -> [0; 1] | _ -> raise Not_found)) in
+  let set tg i x = if kind = "exp" && i = 1 then VAssignTmp (tg, nat_of_int i, z_of_int x) else VEmplace (tg, nat_of_int i, z_of_int x) in
+  let last = match what with
+    | "cc" -> VCopyConstruct false | "mc" -> VMoveConstruct false
+    | "ca" -> VCopyAssign true | "ma" -> VMoveAssign true
+    | _ -> raise Not_found in
+  let ((steps, _), _) = own_run_case false trk false [set false i0 11; set true i1 22; last] in
+  let r = List.nth steps 2 in
+  let nm = function Slot (c, i) -> Printf.sprintf "%d.%d" (int_of_nat c) (int_of_nat i) | _ -> "x" in
+  let evs = List.filter_map (function
+      | Construct (l, Copy s) -> Some (Printf.sprintf "C:%s:%s" (nm l) (nm s))
+      | Construct (l, Move s) -> Some (Printf.sprintf "M:%s:%s" (nm l) (nm s))
+      | Construct (l, Value _) -> Some (Printf.sprintf "E0:%s" (nm l))
+      | _ -> None) r.r_raw in
+  let (a, c) = r.r_obs in
+  let model = String.concat " " (evs @ [";"] @ List.map str_of_z (a @ c)) in
+  let third = what = "cc" || what = "mc" in
+  let v i x = if tracked i then x else 0 in
+  let sp_evs = if tracked i0 && (third || i1 <> i0) then [Printf.sprintf "C:%d.%d:0.%d" (if third then 2 else 1) i0 i0] else [] in
+  let sp = String.concat " " (sp_evs @ [";"; string_of_int i0; string_of_int (v i0 11)]
+                              @ (if third then [string_of_int i1; string_of_int (v i1 22)] else [string_of_int i0; string_of_int (v i0 11)])) in
+  (model, sp)
+
+(* uhist / umon: uninitialized_copy / _move / _fill with a throwing element constructor (ModelMem.uninit) *)
+let run_umem op t =
+  let what = next_str t in
+  let n = next_int t in
+  let k = next_int t in
+  let dst = nat_of_int 2 in
+  let ext j = Ext (nat_of_int j) in
+  let hs = List.init n (fun j -> match what with
+      | "copy" -> Copy (ext j) | "move" -> Move (ext j) | "fill" -> Copy (ext 0) | _ -> raise Not_found) in
+  let (evs, thrown) = uninit dst hs (if k < 0 then None else Some (nat_of_int k)) in
+  let nm = function Slot (_, i) -> Printf.sprintf "d.%d" (int_of_nat i) | Ext j -> Printf.sprintf "s.%d" (int_of_nat j) | Temp _ -> "x.0" in
+  if op = "uhist" then begin
+    let one = function
+      | Construct (l, Copy s) -> Printf.sprintf "Cc:%s:%s" (nm l) (nm s)
+      | Construct (l, Move s) -> Printf.sprintf "Cm:%s:%s" (nm l) (nm s)
+      | Construct (l, Value _) -> Printf.sprintf "E0:%s" (nm l)
+      | Destroy l -> "D:" ^ nm l
+      | Assign (l, _) -> "A:" ^ nm l
+      | Use l -> "U:" ^ nm l in
+    (String.concat " " (List.map one evs @ ["; thrown"; b2s thrown]), "na")
+  end else begin
+    (* the sources are alive before the call *)
+    let n_src = if what = "fill" then 1 else n in
+    let pre = List.init n_src (fun j -> Construct (ext j, Value (z_of_int (10 + j)))) in
+    let (_, m0) = arun [] pre in
+    let (ok, m1) = arun m0 evs in
+    let dest = List.length (List.filter (fun i -> alive m1 (Slot (dst, nat_of_int i))) (List.init 9 (fun i -> i))) in
+    let model = Printf.sprintf "thrown %s wf %s dest %d" (b2s thrown) (b2s ok) dest in
+    let expect_throw = k >= 0 && k < n in
+    let sp = Printf.sprintf "thrown %s wf 1 dest %d" (b2s expect_throw) (if expect_throw then 0 else n) in
+    (model, sp)
+  end
+
 let run_case op t =
   match op with
+  | "uhist" | "umon" -> run_umem op t
   | "pcopy" -> run_pcopy t
+  | "pown" -> run_pown t
   | "hist" | "rawhist" | "mon" ->
     let family = next_str t in
     let cap = next_nat t in
